@@ -109,6 +109,12 @@ func (p *LeakyBucketPacer) Write(header *rtp.Header, payload []byte, attributes 
 		return 0, errLeakyBucketPacerPoolCastFailed
 	}
 
+	if len(payload) > len(*buf) {
+		// larger than the pooled buffers: the copy below would be cut short and the pacing
+		// goroutine would later slice beyond the buffer (and crash the process)
+		big := make([]byte, len(payload))
+		buf = &big
+	}
 	copy(*buf, payload)
 	hdr := header.Clone()
 
